@@ -77,6 +77,7 @@ def build(seed: int, pid: str, ncfg: int) -> Tuple[Dict[str, Any], List[Dict[str
         if pid == "C04" and moves:
             geo["curved"] = {}  # moved end points of declared arcs / polylines would change the curves themselves
         geo["rewrite"] = moves
+        geo["rewrite_remesh"] = (not moves) and mr.chance(0.4)
         geo["rewrite_back"] = bool(moves) and mr.chance(0.5)
     programs = [P.make_program(geo, h64(seed, "cfg", c) % (1 << 31), identity=(c == 0)) for c in range(ncfg)]
     return geo, programs
